@@ -225,6 +225,34 @@ func VerifHarness_SendRacesResponse() {
 	zz.Reach("send-races-response")
 }
 
+// After the pre-login event has completed (the Forge relay sends at that stage) a message is written to
+// the client at once. The client answers it exactly once, as soon as it has received it: under every
+// interleaving of the sender and the client's read loop the consumer gets that answer.
+func VerifHarness_DirectSendRacesTheOnlyResponse() {
+	zz.MaxPreempt(3)
+	l, conn := zzLoginConn()
+	_ = l.loginEventFired(func() error { return nil })
+	c := &zzConsumer{l: l}
+	answered := false
+	zz.Go(func() {
+		zz.Assert(l.SendLoginPluginMessage(message.NewLegacyChannelIdentifier("a:b"), []byte{1}, c) == nil, "sending after the pre-login event failed")
+	})
+	zz.Go(func() {
+		for i := 0; i < 4 && len(zzSentIDs(conn)) == 0; i++ {
+			zz.Yield()
+		}
+		if ids := zzSentIDs(conn); len(ids) > 0 {
+			answered = true
+			_ = l.handleLoginPluginResponse(&packet.LoginPluginResponse{ID: ids[0], Success: true, Data: []byte{7}})
+		}
+	})
+	zz.WaitAll()
+	if answered {
+		zz.Assert(c.calls == 1 && bytes.Equal(c.got, []byte{7}), "the client's only answer to a message it had received was dropped (the consumer was not waiting for it yet)")
+		zz.Reach("direct-send-answered")
+	}
+}
+
 func VerifMutant_LoginPlugin() {
 	l, _ := zzLoginConn()
 	c := &zzConsumer{l: l}
